@@ -16,6 +16,7 @@ import (
 type Cast struct {
 	R1, R2         *User // reporters (R2 is staked with two validators)
 	RV1, RV2       *User // validator operators V1, V2 as reporters (hold > 2/3 of validator power together)
+	RV3            *User // operator of V3 as reporter; nil when V3 is not bonded (too little bonded stake to create a reporter)
 	S1, S2         *User // selectors of R1 / R2
 	S3             *User // second selector of R1 (two selectors of one reporter)
 	Tipper, Payer  *User
@@ -63,6 +64,12 @@ func StdSetup(w *World, mintOn bool) *Cast {
 	c.RV2 = &User{Name: "RV2", Priv: w.Vals[1].OpPriv, Acc: w.Vals[1].Acc}
 	must(w, "create RV1", MsgCreateReporter(c.RV1.Acc, "0", TRB))
 	must(w, "create RV2", MsgCreateReporter(c.RV2.Acc, "0", TRB))
+	if len(w.Vals) >= 3 {
+		if v, err := w.App.StakingKeeper.GetValidator(w.Ctx, w.Vals[2].Val); err == nil && v.IsBonded() {
+			c.RV3 = &User{Name: "RV3", Priv: w.Vals[2].OpPriv, Acc: w.Vals[2].Acc}
+			must(w, "create RV3", MsgCreateReporter(c.RV3.Acc, "0", TRB))
+		}
+	}
 	must(w, "register mode spec", MsgRegisterSpec(c.Tipper.Acc, ModeType, Spec("uint256", "weighted-mode", 2)))
 	if mintOn {
 		must(w, "mint init", MsgMintInit(w.Gov))
